@@ -70,7 +70,8 @@ class Gen:
             k = self.rng.random()
             # the same exponent as int, integral float or Decimal must denote the same prefix
             ee = e if k < 0.6 else float(e) if k < 0.8 else ["d", str(e)]
-            t = ["pfxraw", 10 if not mixed_ok or self.rng.random() < 0.8 else 2, ee, t]
+            # (with mixed bases allowed, also bases a user registers for himself: 60, 16, 1024, 3)
+            t = ["pfxraw", 10 if not mixed_ok or self.rng.random() < 0.6 else self.rng.choice([2, 2, 60, 16, 1024, 3]), ee, t]
         return t
 
     def tree(self, depth, mixed_ok):
@@ -107,6 +108,7 @@ def run(ctx):
         u = Unit.define(d, f"zqc02s{ctx.shard}n{k}", f"zqc02s{ctx.shard}n{k}")
         mdl.fresh.append(u)
     gen = Gen(env, rng, len(mdl.fresh))
+    mdl.as_int = lambda k: model.int_in_disguise(rng, k)   # integer exponents also arrive as IntEnum members and bools
     first = {}   # normal form key -> first real object
     n = ctx.scale(60000, 1_500_000)
 
